@@ -27,21 +27,15 @@ Definition sc_invb (s : sc) : bool :=
 Definition last_seq (l : list counter) : Z := match rev l with c :: _ => fst c | [] => 0 end.
 Definition first_seq (l : list counter) : Z := match l with c :: _ => fst c | [] => 0 end.
 
-(** the situation in which [seqCounters.add] still goes wrong (finding c17-counters-insert-overwrites):
-    the number is inside the window, not stored, and above the smallest stored number.
-    (The other one, a jump past a full window, was repaired in ffc392a.) *)
-Definition sc_between (s : sc) (n : Z) : bool :=
-  (0 <? sc_n s) && (sc_minFromMax s (last_seq (sc_live s)) <=? n) && (n <? last_seq (sc_live s))
-  && negb (existsb (fun c => fst c =? n) (sc_live s)) && (first_seq (sc_live s) <? n).
-
-Definition sc_add_pre (s : sc) (n : Z) : bool := negb (sc_between s n).
-
-(** list-level meaning of [add] under [sc_add_pre]: the live counters as an association list *)
+(** list-level meaning of [add]: the live counters as an association list sorted by number *)
 Fixpoint inc_count (n : Z) (l : list counter) : list counter :=
   match l with
   | [] => []
   | c :: t => if fst c =? n then (fst c, u32 (snd c + 1)) :: t else c :: inc_count n t
   end.
+
+Definition ins_count (n : Z) (l : list counter) : list counter :=
+  filter (fun c => fst c <? n) l ++ (n, 1) :: filter (fun c => n <? fst c) l.
 
 Definition count_below (bound : Z) (l : list counter) : Z :=
   lenZ (filter (fun c => fst c <? bound) l).
@@ -59,7 +53,9 @@ Definition spec_add (w : Z) (l : list counter) (n : Z) : list counter :=
       let nd := if (lenZ l =? w) && (nd0 <? lenZ l) then nd0 + 1 else nd0 in
       dropZ nd l ++ [(n, 1)]
     else if existsb (fun c => fst c =? n) l then inc_count n l
-    else l
+    else if n <? first_seq l then l                       (* below everything stored: ignored *)
+    else if lenZ l <? w then ins_count n l                (* inserted at its place *)
+    else dropZ 1 (ins_count n l)                          (* full: the oldest counter goes *)
   end.
 
 Definition sc_adds (s : sc) (l : list Z) : res sc :=
@@ -104,14 +100,6 @@ Definition buf_of (g : gen) (name : Z) : sdb :=
 
 Definition item_okb (it : item) : bool := (0 <=? i_seq it) && (i_seq it <? two32).
 
-(** the counters are only touched when the track's buffer accepts the item *)
-Definition gen_add_pre (g : gen) (name : Z) (it : item) : bool :=
-  if g_shifted g && negb (i_shifted it) then true
-  else match sdb_add (buf_of g name) it with
-       | Ok (_, true) => sc_add_pre (g_cnt g) (i_seq it)
-       | _ => true
-       end.
-
 (** [start]/[resize] only need a window in (0, 2^32); since 9e29b04 and 502773f a window below what
     is stored keeps the newest entries *)
 Definition gen_resize_pre (g : gen) (nw : Z) : bool := (0 <? nw) && (nw <? two32).
@@ -138,7 +126,7 @@ Definition start_window (c : chan) (mts dur : Z) : Z :=
   u32 (u32 (Z.quot (u32 (ch_tsbd c * mts)) dur + 2) - 1).
 
 (** what the start-up part of receivedSegData needs when this upload completes the measurement
-    of the master track: a non-zero duration (segTime0 / masterSegDuration) and a window in (0, 2^32) *)
+    of the master track: a window in (0, 2^32) (a zero duration no longer starts the channel, ff19d12) *)
 Definition chan_start_pre (c : chan) (g2 : gen) (name : Z) : bool :=
   if (ch_mdur c =? 0) && (name =? ch_master c) then
     match lookup name (g_bufs g2) with
@@ -147,10 +135,10 @@ Definition chan_start_pre (c : chan) (g2 : gen) (name : Z) : bool :=
       if b_n b <? 2 then true
       else match nthZ 0 (arr (b_sl b)), nthZ 1 (arr (b_sl b)) with
            | Some i0, Some i1 =>
-             if negb (i_seq i1 =? u32 (i_seq i0 + 1)) || negb (i_dur i1 =? i_dur i0) then true
+             if negb (i_seq i1 =? u32 (i_seq i0 + 1)) || negb (i_dur i1 =? i_dur i0) || (i_dur i1 =? 0) then true
              else
                let mts := match find_track name (ch_tracks c) with Some t => tr_tsOut t | None => 0 end in
-               negb (i_dur i1 =? 0) && gen_resize_pre g2 (start_window c mts (i_dur i1))
+               gen_resize_pre g2 (start_window c mts (i_dur i1))
            | _, _ => true
            end
     end
@@ -163,7 +151,7 @@ Definition chan_pre (c : chan) (u : upload) : bool :=
   match find_track (up_name u) (ch_tracks c) with
   | None => true
   | Some _ =>
-    item_okb (up_item u) && gen_add_pre (ch_gen c) (up_name u) (up_item u) &&
+    item_okb (up_item u) &&
     match chan_mid c (up_name u) (up_item u) with
     | Ok (g2, _) => chan_start_pre c g2 (up_name u)
     | _ => true
